@@ -160,10 +160,14 @@ class PolicyAnalysis:
             from .terms import subterms
             import itertools
             conds = []
+            # what this path already assumes (its policy, its branch outcomes) is resolved first
+            if final:
+                final = {k: (('Ok', E.specialise(cell[1], st.asm), E.specialise(cell[2], st.asm)) if cell[0] == 'Ok' else cell)
+                         for k, cell in final.items()}
             for k, cell in (final or {}).items():
                 if cell[0] == 'Ok':
                     for c in D.ite_conds(cell[1]) + D.ite_conds(cell[2]):
-                        if c in conds or c in st.asm:
+                        if c in conds or c in st.asm or E.cond_value(c, st.asm) is not None:
                             continue
                         atoms = [x for x in subterms(c) if x and x[0] == 'param']
                         if atoms and all(x == ('param', 'params') for x in atoms):
